@@ -648,6 +648,11 @@ impl<'a> Model<'a> {
                 // If the range under study is in the middle we augment it
                 col.max = max + column_count;
             }
+            // A descriptor that reached the last column (e.g. a sheet-wide style) must not grow past it
+            if col.min > LAST_COLUMN {
+                continue;
+            }
+            col.max = col.max.min(LAST_COLUMN);
             new_columns.push(col.clone());
         }
         // TODO: If in a row the cell to the right and left have the same style we should copy it
